@@ -473,6 +473,7 @@ pub fn scenario_probes(sc: &Scenario, stats: &mut crate::core::Stats) {
     stats.probe("print_some", sc.print.is_some());
     stats.probe("batch_ge_17", sc.batch >= 17 && n >= 17);
     stats.probe("group_ge_256", sc.batch >= 256 && n >= 256);
+    stats.probe("width_ge_8192", sc.net.shapes().map(|v| v.iter().any(|s| s.count() >= 8192)).unwrap_or(false));
     stats.probe("output_activation_reset", sc.net.built_last_act.is_some());
     stats.probe("scale_stratum", n >= 100 || sc.epochs >= 8 || sizes.iter().any(|s| *s >= 300));
     stats.probe("dropout_configured", sc.net.has_dropout());
